@@ -40,6 +40,9 @@ def jobs(tier):
     for s in (["pair", "chain3"] + (["triangle", "pair_vcost"] if tier == "thorough" else [])):
         for mode in ("min", "max"):
             out.append({"name": "%s-%s" % (s, mode), "spec": spec(s, mode), "fixed": True})
+    # a finite, symbolic marker for hard constraints (the solver may make it equal to a table entry)
+    for mode in ("min", "max"):
+        out.append({"name": "pair-%s-marker" % mode, "spec": spec("pair", mode), "fixed": True, "marker": True})
     if tier == "thorough":
         out.append({"name": "pair-min-allsched", "spec": spec("pair", "min"), "fixed": False})
     # start-up phase: registration of used and spare agents, deployment, computation registration, run order
@@ -350,8 +353,10 @@ def run(eng, p):
     inst.dcop.add_agents([AgentDef(a) for a in agents])
     mapping = {a: [n for n in names if host[n] == a] for a in agents}
     algo = comps[0].computation_def.algo
+    # the value that marks a hard constraint: +inf by default, a symbolic finite marker in the "-marker" jobs
+    infinity = eng.sym_int("infinity", -2 ** 40, 2 ** 40) if p.get("marker") else float("inf")
     try:
-        orch = Orchestrator(algo, cg, Distribution(mapping), InProcessCommunicationLayer(), inst.dcop)
+        orch = Orchestrator(algo, cg, Distribution(mapping), InProcessCommunicationLayer(), inst.dcop, infinity=infinity)
     except Exception as e:
         eng.fail("Orchestrator construction raised %s: %s" % (type(e).__name__, e), detail=traceback.format_exc(limit=-4))
         return
@@ -400,7 +405,8 @@ def run(eng, p):
     ok = set(asg) == set(inst.var_names()) and all(asg[v] in inst.domains[v] for v in asg)
     eng.prove(ok, "reported assignment does not cover every variable with a domain value", detail=str(asg))
     if ok:
-        viol, cost = inst.dcop.solution_cost(dict(asg), float("inf"))
-        eng.prove(F.and_(F.eq(metrics["cost"], cost), F.eq(metrics["violation"], viol), F.eq(cost, inst.cost(asg)), viol == 0),
+        viol, cost = inst.dcop.solution_cost(dict(asg), infinity)
+        eng.prove(F.and_(F.eq(metrics["cost"], cost), F.eq(metrics["violation"], viol),
+                         True if p.get("marker") else F.and_(F.eq(cost, inst.cost(asg)), viol == 0)),
                   "reported cost / violation differ from the DCOP's own accounting of the reported assignment", detail=str(asg))
         eng.prove(inst.is_optimal(asg), "reported assignment is not optimal", detail=str(asg))
